@@ -146,17 +146,17 @@ func ruleClosed(c *Ctx) {
 		c.check(okg, R, "errorIfFileIsClosed:raises", p.pos(guardFn.Pos()), "raises when file.closed", "errorIfFileIsClosed no longer raises for a closed file")
 	}
 	exempt := map[string]string{
-		"newFile":                     "constructor of a fresh handle",
-		"newProcess":                  "constructor of a fresh handle",
-		"fileCloseAux":                "the close transition itself (a second close reaches fp.Close's own error and raises it)",
-		"(*lFile).Type":               "observer: compares fp with nil only",
-		"(*lFile).Name":               "observer: reads the stored name",
-		"(*lFile).AbandonReadBuffer":  "helper: callers are checked at their call sites",
-		"fileToString":                "observer: reads .closed and Type()",
-		"ioType":                      "observer: reads .closed",
-		"fileIsWritable":              "observer: nil-ness of writer",
-		"fileIsReadable":              "observer: nil-ness of reader",
-		"errorIfFileIsClosed":         "the guard itself",
+		"newFile":                    "constructor of a fresh handle",
+		"newProcess":                 "constructor of a fresh handle",
+		"fileCloseAux":               "the close transition itself (a second close reaches fp.Close's own error and raises it)",
+		"(*lFile).Type":              "observer: compares fp with nil only",
+		"(*lFile).Name":              "observer: reads the stored name",
+		"(*lFile).AbandonReadBuffer": "helper: callers are checked at their call sites",
+		"fileToString":               "observer: reads .closed and Type()",
+		"ioType":                     "observer: reads .closed",
+		"fileIsWritable":             "observer: nil-ness of writer",
+		"fileIsReadable":             "observer: nil-ness of reader",
+		"errorIfFileIsClosed":        "the guard itself",
 	}
 	// functions that handle lFile values
 	var fns []*ssa.Function
